@@ -9,15 +9,16 @@
                               capabilities, and the capabilities of a True-typed expression hold unconditionally
      c03_impossible_partial   an expression typed False never evaluates to true
      c03_policy_sound_partial an accepted condition (Success / Irrelevant) evaluates to a boolean or a permitted error
-   "partial" = the syntactic fragment TypecheckProofs3.in_fragment:
+   "partial" = the syntactic fragment TypecheckMain.in_fragment:
      literals, variables, && and || with full capability flow (union / intersection, short-circuit singleton
      typing), !, ==, if-then-else with singleton short-circuit typing and capability flow (branches boolean-rooted),
      `has` and `.` on access paths (variable followed by attribute selections) over records AND entities:
      required / optional attributes, optional ones behind capabilities, nested records, entity-typed attributes,
-     open / closed types, absent entities; integer arithmetic (+, -, *, unary -: value or overflow); like; is.
+     open / closed types, absent entities; integer arithmetic (+, -, *, unary -: value or overflow); < and <=
+     (longs, datetime, duration); like; is; isEmpty, contains, containsAll, containsAny.
    Not in the fragment (see notes/C03.md): attribute access on non-path expressions, non-boolean `if` branches,
-   <, <=, tags, in, contains*, isEmpty, extension calls, set and record literals. *)
-From Cedar Require Import Typecheck ConformProofs ExprEq TypecheckProofs TypecheckProofs2 TypecheckProofs3.
+   tags, in, extension calls, set and record literals. *)
+From Cedar Require Import Typecheck ConformProofs ExprEq TypecheckProofs TypecheckProofs2 TypecheckProofs3 TypecheckProofs4 TypecheckMain.
 
 Theorem c03_sound_partial :
   forall m sch env q es,
